@@ -1888,7 +1888,7 @@ class SingleItemDecoder(object):
                 if LOG:
                    LOG('codec %s yields type %s, value:\n%s\n...' % (
                        concreteDecoder.__class__.__name__, value.__class__.__name__,
-                       isinstance(value, base.Asn1Item) and value.prettyPrint() or value))
+                       debug.prettyValue(value)))
 
                 state = stStop
                 break
